@@ -1,10 +1,10 @@
 SPECIFICATION Spec
 CONSTANTS
-  Which = "ape1"
-  Rots <- O24
+  Which = "rpe"
+  Rots <- QuickRots
   Emit = TRUE
-  RpeN = {3}
-  Light = FALSE
+  RpeN = {4}
+  Light = TRUE
 INVARIANT MImpliesP
 INVARIANT Corollaries
 INVARIANT StatsTheorem
